@@ -438,7 +438,11 @@ class ExprDict(Expr):
     def iterate(self, *, flat: bool = True) -> Iterator[str | Expr]:
         yield "{"
         yield from _join(
-            (("None" if key is None else key, ": ", value) for key, value in zip(self.keys, self.values)),
+            (
+                # A missing key denotes dictionary unpacking: `{**other}`.
+                ExprVarKeyword(value) if key is None else (key, ": ", value)  # type: ignore[arg-type]
+                for key, value in zip(self.keys, self.values)
+            ),
             ", ",
             flat=flat,
             precedence=_PREC_TEST,
